@@ -3,7 +3,11 @@ Oracle for C01: re-computes what the model (`Model.Negotiate`, with the regenera
 the stack) predicts for a pair of configurations and evaluates the spec
 (`Spec.Negotiate`) on what the two real endpoints reported.
 
-case     : see harness/cmd/c01/main.go (abstract client and server configuration)
+case     : see harness/cmd/c01/main.go (abstract client and server configuration, optionally
+           `hist=<step>;<step>…`: further connections between the same two parties, each
+           `same` or `+`-joined overrides `cs: calpn: ccl: ss: salpn: sca: scl:` of the first
+           connection's settings — a history, judged connection by connection with
+           `Spec.Negotiate.connOK`, the model being `runHistory`)
 observed : `h1=<client>|<server>|<echo> [h2=…] [e1c=… e1s=… …]`
              end  = `ok:<vers>:<suite>:<alpn|->:<resumed>:<peer certs S/E|->:<server name|->`
                   | `fail` | `timeout` | `incomplete`
@@ -192,11 +196,108 @@ def judgeRound (i : Nat) (c : ClientCfg) (s : ServerCfg) (want : Agreed) (tok : 
     | _, _ => some ("shape", s!"unparseable ends in {tok}")
   | _ => some ("shape", s!"unparseable round {tok}")
 
+/-! ### histories -/
+
+def parseStep (base : Reconf) (t : String) : Option Reconf :=
+  if t == "same" then some base else
+  (t.splitOn "+").foldlM (fun (r : Reconf) f =>
+    match f.splitOn ":" with
+    | ["cs", v] => (parseSuites v).map fun x => { r with cs := x }
+    | ["ss", v] => (parseSuites v).map fun x => { r with ss := x }
+    | ["calpn", v] => some { r with calpn := parseList v }
+    | ["salpn", v] => some { r with salpn := parseList v }
+    | ["ccl", v] => some { r with cclone := v == "1" }
+    | ["scl", v] => some { r with sclone := v == "1" }
+    | ["sca", v] => some { r with scache := v == "1" }
+    | _ => none) base
+
+/-- one observed connection: `inl` = a verdict that does not need the spec (hang, split, shape),
+`inr` = what the two ends report (`none`: both failed) and the echo -/
+def parseRound (i : Nat) (tok : String) : Sum (String × String) (Option Agreed × String) :=
+  match tok.splitOn "|" with
+  | [ce, se, echo] =>
+    match parseEnd ce, parseEnd se with
+    | some oc, some os =>
+      if oc.status == "timeout" || os.status == "timeout" then
+        .inl ("hang", s!"handshake {i} did not end on both sides ({oc.status}/{os.status})")
+      else if oc.status == "incomplete" || os.status == "incomplete" then
+        .inl ("incomplete", s!"handshake {i} returned nil without completing ({oc.status}/{os.status})")
+      else
+        match oc.view, os.view with
+        | some cv, some sv => .inr (some ⟨cv, sv⟩, echo)
+        | none, none => .inr (none, echo)
+        | _, _ => .inl ("split", s!"handshake {i}: client {oc.status}, server {os.status}")
+    | _, _ => .inl ("shape", s!"unparseable ends in {tok}")
+  | _ => .inl ("shape", s!"unparseable round {tok}")
+
+/-- why `connOK` rejects (for the replay; the verdict itself is `connOK`) -/
+def diagnose (i : Nat) (c : ClientCfg) (s : ServerCfg) (origin : Option Agreed) (obs : Option Agreed) : String × String :=
+  match obs with
+  | none => ("refused", s!"connection {i} failed although the configurations in use are compatible (expected {showView (Spec.Negotiate.expected c s).client})")
+  | some a =>
+    if !Spec.Negotiate.compatible c s then
+      ("accepted", s!"connection {i} succeeded although the configurations in use are incompatible")
+    else if !Spec.Negotiate.viewsAgree a then
+      ("disagree", s!"connection {i}: the two ends report different parameters ({showView a.client} / {showView a.server})")
+    else if a.client.resumed || a.server.resumed then
+      match origin with
+      | none => ("resumed", s!"connection {i} reports a resumption but no earlier full handshake of this history succeeded")
+      | some o =>
+        if !(c.cache && s.cache) then
+          ("resumed", s!"connection {i} reports a resumption although a configuration in use has no session cache")
+        else if !Spec.Negotiate.usable c s o.client.suite then
+          ("suite", s!"connection {i} resumed suite {hex4 o.client.suite}, which the configurations in use do not both enable and have keys for ({showView a.client})")
+        else
+          let want := Spec.Negotiate.resumedFrom o c s
+          let dc := viewDiff a.client want.client
+          let ds := viewDiff a.server want.server
+          if dc != "" then (dc, s!"connection {i} (resumed): client reports {showView a.client}, expected {showView want.client}")
+          else (if ds == "" then "view" else ds, s!"connection {i} (resumed): server reports {showView a.server}, expected {showView want.server}")
+    else
+      let want := Spec.Negotiate.expected c s
+      let dc := viewDiff a.client want.client
+      let ds := viewDiff a.server want.server
+      if dc != "" then (dc, s!"connection {i}: client reports {showView a.client}, expected {showView want.client}")
+      else (if ds == "" then "view" else ds, s!"connection {i}: server reports {showView a.server}, expected {showView want.server}")
+
+/-- the spec on an observed history: the first connection that is not as prescribed -/
+def judgeHistory (c0 : ClientCfg) (s0 : ServerCfg) (ot : List String) :
+    Nat → Option Agreed → List Reconf → Option (String × String)
+  | _, _, [] => none
+  | i, origin, r :: rs =>
+    match kv ot s!"h{i}" with
+    | none => some ("shape", s!"connection {i} missing")
+    | some tok =>
+      match parseRound i tok with
+      | .inl f => some f
+      | .inr (obs, echo) =>
+        let c := r.client c0
+        let s := r.server s0
+        if !Spec.Negotiate.connOK c s origin obs then some (diagnose i c s origin obs)
+        else if obs.isSome && echo != "ok" then some ("echo", s!"connection {i}: application bytes were not echoed unchanged")
+        else judgeHistory c0 s0 ot (i + 1) (Spec.Negotiate.nextOrigin origin obs) rs
+
+def judgeHist (p : Params) (c : ClientCfg) (s : ServerCfg) (hist : String) (os : String) : Option Verdict := do
+  let base := Reconf.of c s
+  let steps ← (hist.splitOn ";").mapM (parseStep base)
+  let rs := base :: steps
+  let outs := runHistory p c s {} rs
+  let ot := tokens os
+  let secondary := ot.filter fun t => !t.startsWith "h"
+  let rounds := (List.range outs.length).zipWith (fun i r => showRound (i + 1) r) outs
+  let model := " ".intercalate (rounds ++ secondary)
+  let nres := (outs.filter fun r => match r with | .ok a => a.client.resumed | .error _ => false).length
+  let nfail := (outs.filter fun r => !isOk r).length
+  pure { model := model, spec := judgeHistory c s ot 1 none rs,
+         note := s!"hist:{rs.length}:resumed{nres}:failed{nfail}", trivial := false }
+
 def judge (cs os : String) : Option Verdict := do
   let ct := tokens cs
   let p ← params (kvd ct "stack" "tlcp")
   let c ← parseClient ct
   let s ← parseServer ct
+  if let some h := kv ct "hist" then
+    return ← judgeHist p c s h os
   let two := c.cache || s.cache
   -- model
   let r1 := negotiate p c s
